@@ -292,6 +292,46 @@ def load_sequences() -> list[tuple[str, list[str]]]:
 
 
 # ------------------------------------------------------------------ work --------------------------------------
+def rebound_classes() -> list[tuple[str, list[str]]]:
+    """an event class is read back once, then its qualified name is bound to a NEW class (the module body is executed again: a
+    notebook cell re-run, importlib.reload, a dev server's hot reload) that has one more typed field; an instance of the new class
+    must come back as an instance of the new class with its typed fields"""
+    import sys
+    import types
+
+    out: list[tuple[str, list[str]]] = []
+    modname = "vmc_c18_rebound"
+    src1 = ("from workflows.events import Event, StopEvent\n"
+            "class Progress(Event):\n    pct: int = 0\n"
+            "class Finished(StopEvent):\n    code: int = 0\n")
+    src2 = src1.replace("    pct: int = 0\n", "    pct: int = 0\n    note: str = ''\n")
+    mod = types.ModuleType(modname)
+    sys.modules[modname] = mod
+    try:
+        for gen, src in (("first definition", src1), ("name bound to a new class", src2)):
+            exec(compile(src, modname, "exec"), mod.__dict__)  # noqa: S102
+            second = gen != "first definition"
+            makers = [("Progress", (lambda: mod.Progress(pct=3, note="n", dyn=[1])) if second else (lambda: mod.Progress(pct=3, dyn=[1]))),
+                      ("Finished", lambda: mod.Finished(code=2, result={"k": 1}))]
+            for cname in ("json_serializer", "json_serializer_nested", "envelope_with_metadata", "tick_add_event"):
+                ch = CHANNELS[cname]
+                for ename, mk in makers:
+                    e = mk()
+                    name = f"{ename} ({gen}) through {cname}"
+                    try:
+                        back = ch(e)
+                    except Exception as x:  # noqa: BLE001
+                        out.append((name, [f"raises {type(x).__name__}: {str(x)[:200]}"]))
+                        continue
+                    diffs = compare(mk(), back, ename)
+                    if type(back) is not type(e):
+                        diffs.append(f"{ename}: class object is not the one the name is bound to now")
+                    out.append((name, diffs))
+    finally:
+        sys.modules.pop(modname, None)
+    return out
+
+
 def work(case: Any) -> Any:
     tier, lo, hi = case
     v: list[Any] = []
@@ -310,6 +350,12 @@ def work(case: Any) -> Any:
             nontriv += 1
             if diffs:
                 v.append(("class_changed_in_load_sequence", {"what": "same-named classes from two modules, default registry"},
+                          f"{name}: " + "; ".join(diffs)[:400], None))
+        for name, diffs in rebound_classes():
+            n += 1
+            nontriv += 1
+            if diffs:
+                v.append(("class_changed_after_its_name_was_rebound", {"what": name.split(" (")[0], "generation": name.split("(")[1].split(")")[0]},
                           f"{name}: " + "; ".join(diffs)[:400], None))
         return n, nontriv, v, {"ticks_without_events_failure_results_and_load_sequences": n}
     for sname, thunk in shapes(tier)[lo:hi]:
